@@ -67,6 +67,42 @@ fn hll_extreme(lgk: u8, t: u8, n_public: u64, seed: u64) {
     hll_all_queries(&small.to_sketch(HllType::Hll4));
 }
 
+/// An out-of-order sketch (a union result) answers from the composite estimator: its raw estimate is taken
+/// through every interval of the interpolation table, the last one and the linear extrapolation beyond it
+/// included (the table ends near 10 k), with a query after every update.
+fn hll_ooo_sweep(lgk: u8, t: u8, seed: u64) {
+    let k = 1u64 << lgk;
+    let mut rng = Rng::new(seed ^ 0x00F0 ^ ((lgk as u64) << 8) ^ t as u64);
+    let mut a = HllSketch::new(lgk, ty(t));
+    for _ in 0..8 * k {
+        a.update(rng.next());
+    }
+    let mut u = HllUnion::new(lgk);
+    u.update(&a);
+    let mut r = u.to_sketch(ty(t));
+    for i in 0..6 * k {
+        r.update(rng.next());
+        let e = r.estimate();
+        assert!(e.is_finite() && e > 0.0);
+        if i % 8 == 0 {
+            let (lb, ub) = (r.lower_bound(NumStdDev::Two), r.upper_bound(NumStdDev::Two));
+            assert!(lb <= e && e <= ub);
+        }
+    }
+    // and the union gadget itself queried through the same range
+    let mut g = HllUnion::new(lgk);
+    g.update(&a);
+    for i in 0..6 * k {
+        let mut one = HllSketch::new(lgk, ty(t));
+        one.update(rng.next());
+        g.update(&one);
+        if i % 4 == 0 || lgk <= 8 {
+            let e = g.estimate();
+            assert!(e.is_finite() && e > 0.0);
+        }
+    }
+}
+
 fn cpc_queries(sk: &CpcSketch) {
     assert!(sk.validate());
     for s in [NumStdDev::One, NumStdDev::Two, NumStdDev::Three] {
@@ -318,6 +354,14 @@ pub fn record(args: &Args) {
     } else {
         bulk(&mut out, "cpc lg_k=26 sparse", move || cpc_extreme(26, 200_000, seed));
     }
+    for &lgk in &[4u8, 6, 8, 10, 12] {
+        for t in [4u8, 6, 8] {
+            if !thorough && lgk == 12 && t != 8 {
+                continue;
+            }
+            bulk(&mut out, &format!("hll out-of-order sweep lg_k={lgk} type={t}"), move || hll_ooo_sweep(lgk, t, seed));
+        }
+    }
     bulk(&mut out, "theta lg_k=5", move || theta_extreme(5, 50_000, seed));
     bulk(&mut out, "theta lg_k=26", move || theta_extreme(26, if thorough { 400_000 } else { 60_000 }, seed));
     bulk(&mut out, "tdigest k=10", move || td_extreme(10, 200_000, seed));
@@ -371,6 +415,43 @@ pub fn record_sizes(args: &Args) {
                 match r {
                     Ok(evs) => evs.into_iter().for_each(|e| out.ev(e)),
                     Err(e) => out.ev(json!({"op":"Panic","in":"hll stream","key":e.split(": ").next().unwrap_or(""),"msg":e})),
+                }
+            }
+        }
+    }
+    // HLL sketches that start from a decoded coupon-set image: every lg_k / table size the decoder accepts
+    // (the bound is the configuration's, whatever the image said about the table)
+    {
+        let mut base = HllSketch::new(12, ty(8));
+        for i in 0..20u64 {
+            base.update(i.wrapping_mul(0x9E37_79B9_7F4A_7C15));
+        }
+        let base_img = base.serialize();
+        for &lgk in &[4u8, 6, 7, 8, 9, 10, 12] {
+            for lgarr in 3u8..=lgk.max(3) + 1 {
+                let mut img = base_img.clone();
+                img[3] = lgk;
+                img[4] = lgarr;
+                let Ok(Ok(mut sk)) = catch(std::panic::AssertUnwindSafe(|| HllSketch::deserialize(&img))) else { continue };
+                out.next_run("size-hll-from-image");
+                let n_max = if thorough { 1u64 << 18 } else { 1 << 15 };
+                let r = catch(std::panic::AssertUnwindSafe(|| {
+                    let mut evs = vec![];
+                    for i in 0..n_max {
+                        sk.update(rng.next());
+                        if (i + 1).is_power_of_two() {
+                            let st = sk.verif_state();
+                            let mode = ["list", "set", "arr"][st.mode as usize];
+                            let count = if st.mode == 0 { st.coupons.iter().filter(|&&c| c != 0).count() } else { st.count };
+                            evs.push(json!({"op":"Size","fam":"hll","lgk":lgk,"type":8,"mode":mode,"count":count,"naux":st.aux.len(),
+                                "len":sk.serialize().len(),"n":i + 1,"lgarr0":lgarr}));
+                        }
+                    }
+                    evs
+                }));
+                match r {
+                    Ok(evs) => evs.into_iter().for_each(|e| out.ev(e)),
+                    Err(e) => out.ev(json!({"op":"Panic","in":"hll stream from image","key":e.split(": ").next().unwrap_or(""),"msg":e})),
                 }
             }
         }
@@ -434,6 +515,41 @@ pub fn record_sizes(args: &Args) {
                 }
             }
             evs.into_iter().for_each(|e| out.ev(e));
+        }
+    }
+    // CPC union results are sketches of the union's configuration: lg_k no larger than configured, image
+    // within max_serialized_bytes of the configured lg_k, whatever the inputs' lg_k, flavour and order
+    for &ulgk in &[4u8, 8, 10] {
+        for plan in 0..6u8 {
+            let mut u = datasketches::cpc::CpcUnion::new(ulgk);
+            let inputs: Vec<(u8, u64)> = match plan {
+                0 => vec![(ulgk + 4, 3), (ulgk + 4, 40)],                      // larger sparse first input
+                1 => vec![(ulgk + 2, 1 << (ulgk + 3)), (ulgk, 50)],              // larger dense first input
+                2 => vec![(ulgk, 10), (ulgk + 6, 20), (ulgk + 1, 1 << (ulgk + 2))],
+                3 => vec![(ulgk + 8, 2), (ulgk + 8, 2), (ulgk + 8, 1 << 10)],
+                4 => vec![(ulgk.max(5) - 1, 7), (ulgk + 3, 100)],
+                _ => (0..6).map(|_| (ulgk + rng.below(7) as u8, 1 + rng.below(1 << (ulgk + 2)))).collect(),
+            };
+            for (lgk, n) in inputs {
+                let lgk = lgk.clamp(4, 20);
+                let mut s = CpcSketch::new(lgk);
+                for _ in 0..n {
+                    s.update(rng.next());
+                }
+                let r = catch(std::panic::AssertUnwindSafe(|| {
+                    u.update(&s);
+                    let res = u.to_sketch();
+                    (res.lg_k(), res.serialize().len(), res.num_coupons())
+                }));
+                match r {
+                    Ok((rlgk, len, c)) => out.ev(json!({"op":"Size","fam":"cpcu","ulgk":ulgk,"rlgk":rlgk,"len":len,
+                        "maxlen":CpcSketch::max_serialized_bytes(ulgk),"n":n,"c":c,"src":lgk})),
+                    Err(e) => {
+                        out.ev(json!({"op":"Panic","in":"cpc union","key":e.split(": ").next().unwrap_or(""),"msg":e}));
+                        break;
+                    }
+                }
+            }
         }
     }
     // frequent items, Bloom, Count-Min, t-digest
